@@ -29,7 +29,9 @@
         of the lexer object in the code and is not part of this specification);
      C6 the "pool" variable is looked up like any other edge variable, after the inputs and
         outputs are known;
-     C7 ninja_required_version newer than 1.14 rejects the manifest.
+     C7 ninja_required_version newer than 1.14 rejects the manifest;
+     C8 include/subninja nesting deeper than the fuel given (an include cycle for every fuel)
+        rejects the manifest, at the include statement that goes too deep.
    Error LINES of the reference are the line of the statement's first token; only presence
    and class of an error are meant to be compared with the implementation. *)
 From NinjaV Require Import Base.Bytes Canon.CanonDefs Manifest.LexDefs Manifest.ParseDefs
@@ -376,7 +378,7 @@ Fixpoint spec_stmts (incl : sloader) (fname : bytes) (l : list stmt) (env : senv
 Fixpoint spec_load (ifuel : nat) (fm : bytes -> option bytes) (parent : bytes) (line : nat)
          (file : bytes) (env : senv) (st : sstate) : pres (senv * sstate) :=
   match ifuel with
-  | O => P_err parent line E_include_fuel
+  | O => P_err parent line E_include_depth                               (* C8 *)
   | S f =>
     match fm file with
     | None => P_err parent line E_loading
